@@ -17,6 +17,8 @@ def plan(tier, seed):
                shape=dict(old_ids=ids), env=dict(VERIF_OLD_IDS=ids))
         j["name"] += "[ids=%s]" % ids
         jobs.append(j)
+    jobs.append(ch("C19", "vf/pyxlift/h_footer.py", "h_common_metadata", t,
+                   ["writer.write_common_metadata", "cencoding.ThriftObject.to_bytes (compiled, concrete)"]))
     jobs.append(ch("C19", "vf/pyshim/h_write.py", "h_write_append_truthy", t,
                    ["writer.write (dispatch on the append argument)"]))
     jobs.append(ch("C19", G, "h_find_max_part", t, ["writer.find_max_part", "api.part_ids"]))
